@@ -454,6 +454,7 @@ def run(ctx):
     reaction_rule(ctx)
     node_values_rule(ctx)
     node_to_element_rule(ctx)
+    storage_location_rule(ctx)
     energy_rule(ctx)
 
 
@@ -486,3 +487,51 @@ def node_to_element_rule(ctx):
         r.fail(f.qualname, "node-to-element", f.file, f.lineno, "_Simu.Results_Reshape_values", f"QUAD4 + TRI3 mesh: {bad}: a constant nodal field is not preserved on the elements of the second group")
     else:
         r.ok("values_e = per-element mean over each group's own connectivity (QUAD4 + TRI3)")
+
+
+def storage_location_rule(ctx):
+    """R16.10: a tensor result stored per element is converted to nodes by Get_Node_Values whatever the mesh sizes are.
+    Results_Reshape_values is interpreted on a mesh where Ne * ncomp is a multiple of Nn (2 elements, 6 nodes, 3
+    components): the element tensor must still be recognised as element data."""
+    repo = ctx.repo
+    r = ctx.rule("R16.10", "storage location of a result (per node / per element) is not inferred from a size coincidence: element data whose size happens to be a multiple of Nn is still converted with Get_Node_Values", min_instances=2)
+    simu = repo.cls(f"{SIM}._simu._Simu")
+    f = simu.methods["Results_Reshape_values"]
+    Nn, Ne, nc = 6, 2, 3
+    conn = [[0, 1, 4, 3], [1, 2, 5, 4]]
+    quad = SimpleNamespace(nPe=4, connect=XArray((2, 4), [n for c in conn for n in c]))
+    marker = {}
+
+    def node_values(values_e):
+        marker["called"] = True
+        ve = XArray.from_nested(values_e)
+        out = []
+        for n in range(Nn):
+            es = [e for e in range(Ne) if n in conn[e]]
+            for c in range(ve.shape[1]):
+                out.append(sum((ve[e, c] for e in es), Poly()) / len(es))
+        return XArray((Nn, ve.shape[1]), out)
+
+    mesh = SimpleNamespace(Nn=Nn, Ne=Ne, dim=2, Get_list_groupElem=lambda d=None: [quad], Get_Node_Values=node_values, groupElem=quad)
+    I = Interp(repo)
+    # (a) element tensor (Ne, 3) asked at nodes
+    r.instance(fn=f.qualname)
+    ve = XArray((Ne, nc), [Poly.var(f"s{e}{c}") for e in range(Ne) for c in range(nc)])
+    marker.clear()
+    out = XArray.from_nested(I.call_function(f, [ve, True], self_obj=XObj(simu, dict(mesh=mesh))))
+    want = node_values(ve)
+    ok = out.shape == want.shape and all(is_zero(a - b) for a, b in zip(out.data, want.data))
+    if ok:
+        r.ok("element tensor (2, 3) on a 6-node mesh -> Get_Node_Values")
+    else:
+        r.fail(f.qualname, "size-coincidence:element->node", f.file, f.lineno, "_Simu.Results_Reshape_values", f"2 elements x 3 components on a 6-node mesh: the element tensor is taken for nodal data because its size is a multiple of Nn (result shape {out.shape}, expected {want.shape} from Get_Node_Values): Result('Stress', nodeValues=True) disagrees with Result('Sxx', True)")
+    # (b) nodal vector (Nn,) asked at elements when Nn is a multiple of Ne
+    r.instance(fn=f.qualname)
+    vn = XArray((Nn,), [Poly.var(f"v{n}") for n in range(Nn)])
+    out = XArray.from_nested(I.call_function(f, [vn, False], self_obj=XObj(simu, dict(mesh=mesh)))).ravel()
+    want = [sum((vn[n] for n in conn[e]), Poly()) / 4 for e in range(Ne)]
+    ok = out.size == Ne and all(is_zero(a - b) for a, b in zip(out.data, want))
+    if ok:
+        r.ok("nodal scalar (6,) on a 2-element mesh -> per-element mean")
+    else:
+        r.fail(f.qualname, "size-coincidence:node->element", f.file, f.lineno, "_Simu.Results_Reshape_values", f"6 nodal values on a 2-element mesh: the nodal field is taken for element data because its size is a multiple of Ne (got {out.size} values: a (2, 3) reshape of the nodal vector)")
